@@ -1276,6 +1276,18 @@ class FCN(object):
         return g + constr_grad, h + constr_hessian
 
     def get_grad_hessp(self, x, p, batch):
+        model_cls = type(self.model)
+        if (
+            getattr(model_cls, "nll_grad_hessian", None)
+            is not Model.nll_grad_hessian
+            and getattr(model_cls, "grad_hessp_batch", None)
+            is Model.grad_hessp_batch
+        ):
+            # likelihoods with their own formula (cfit, custom models) only
+            # inherit the Hessian-vector product of the default likelihood:
+            # use their own Hessian instead
+            _, grad, hess = self.get_nll_grad_hessian(x, batch)
+            return grad, np.dot(np.array(hess), np.array(p))
         self.model.set_params(x)
         grad, hessp = self.model.grad_hessp_batch(
             p,
